@@ -115,6 +115,8 @@ before. Missing: the no-leak invariant along fault-free, leak-free histories ("e
 still owned or already out"), which needs a second pass over every operation's normal-return
 path; the implementation side of that clause is checked by `slotdrive` (leak check after the final
 drop of every fault-free leak-free history).
+(Since round 3 the missing part is proved: see `no_leak_step`, `no_leak_run` and `exactly_once`
+below; this theorem is kept unchanged.)
 -/
 theorem exactly_once_partial {s : St} (h : Own s) (hal : s.v.h.alive = true)
     (hr : (step none .dropVec s).1 = .unit) (a : Nat)
@@ -129,6 +131,63 @@ theorem exactly_once_partial {s : St} (h : Own s) (hal : s.v.h.alive = true)
   obtain ⟨_, _, _, _, _, hacc⟩ := own_step none .dropVec h
   rw [hacc.trout]
   rw [hacc.outnd.count, if_pos hmem]
+
+/-- The no-leak invariant `OwnF` (ownership invariant + "no fault armed, every id created so far
+is held by the container — slot below `len` or live prefix — or already dropped / handed to the
+caller") is preserved by every operation that does not leak by design (everything except a
+`mem::forget`-ed `Drain`/`IntoIter`) when no fault is injected — including the paths on which the
+operation's own assertion panics. In the model no fault-free path leaks. -/
+theorem no_leak_step {s : St} (op : Op) (h : OwnF s) (hleak : op.leaks = false) :
+    OwnF (step none op s).2 :=
+  step_ownF op h hleak
+
+/-- The no-leak invariant holds after every fault-free, leak-free history. -/
+theorem no_leak_run {s : St} (hist : List (Option Nat × Op)) (h : OwnF s) (hc : CleanHist hist) :
+    OwnF (run hist s) :=
+  run_ownF hist s h hc
+
+/-- **exactly_once.** Along a history with no leak operation and no injected fault, after the final
+container drop every id ever created — element values made by the caller, clones, generated and
+iterated values, and every prefix value (also those of the temporary vectors of `clone`,
+`split_off` and of the `from_mut_vector` conversions) — has been dropped exactly once or handed
+to the caller exactly once: the numbers of its `drop` and `ret` events add up to 1. -/
+theorem exactly_once {s₀ : St} (h0 : OwnF s₀) (hist : List (Option Nat × Op))
+    (hc : CleanHist hist) (hal : (run hist s₀).v.h.alive = true) (a : Nat)
+    (ha : a < (step none .dropVec (run hist s₀)).2.mem.next) :
+    (step none .dropVec (run hist s₀)).2.mem.trace.count (.drop a) +
+      (step none .dropVec (run hist s₀)).2.mem.trace.count (.ret a) = 1 := by
+  rw [← count_outId]
+  exact (all_out_after_drop (no_leak_run hist h0 hc) hal).1 a ha
+
+/-- The same, phrased on the trace alone: every id that some event of the final trace created
+(`mk a`: a value made by the caller, a generator, an iterator or `P::default()`; `clone _ a`) has
+exactly one drop-or-return event. In particular every prefix value ever created is accounted for
+exactly once. -/
+theorem every_created_once {s₀ : St} (h0 : OwnF s₀) (hist : List (Option Nat × Op))
+    (hc : CleanHist hist) (hal : (run hist s₀).v.h.alive = true) (e : Ev) (a : Nat)
+    (he : e ∈ (step none .dropVec (run hist s₀)).2.mem.trace) (hn : e.newId = some a) :
+    (step none .dropVec (run hist s₀)).2.mem.trace.count (.drop a) +
+      (step none .dropVec (run hist s₀)).2.mem.trace.count (.ret a) = 1 :=
+  exactly_once h0 hist hc hal a
+    ((all_out_after_drop (no_leak_run hist h0 hc) hal).2 e he a hn)
+
+/-- `exactly_once` from `InlineVec::<_, cap>::new()`. -/
+theorem inline_exactly_once (cap : Nat) (hist : List (Option Nat × Op)) (hc : CleanHist hist)
+    (hal : (run hist (initInline cap)).v.h.alive = true) (a : Nat)
+    (ha : a < (step none .dropVec (run hist (initInline cap))).2.mem.next) :
+    (step none .dropVec (run hist (initInline cap))).2.mem.trace.count (.drop a) +
+      (step none .dropVec (run hist (initInline cap))).2.mem.trace.count (.ret a) = 1 :=
+  exactly_once (ownF_initInline cap) hist hc hal a ha
+
+/-- `exactly_once` from `ThinVec::<T, P>::new()`, marker or drop-tracked prefix: the initial prefix
+value (id 0 when tracked) and every later one are dropped exactly once. -/
+theorem thin_exactly_once (esz : Nat) (tracked : Bool) (hpos : 0 < esz)
+    (hist : List (Option Nat × Op)) (hc : CleanHist hist)
+    (hal : (run hist (initThin esz tracked)).v.h.alive = true) (a : Nat)
+    (ha : a < (step none .dropVec (run hist (initThin esz tracked))).2.mem.next) :
+    (step none .dropVec (run hist (initThin esz tracked))).2.mem.trace.count (.drop a) +
+      (step none .dropVec (run hist (initThin esz tracked))).2.mem.trace.count (.ret a) = 1 :=
+  exactly_once (ownF_initThin esz tracked hpos) hist hc hal a ha
 
 /-- The default prefix value of a ThinVec is written into fresh memory without any drop (the
 construction trace is exactly "allocate, create the value") and, when the vector is dropped without
@@ -175,5 +234,20 @@ example :
     let s := run [(none, .push), (none, .push)] (initThin 8 true)
     s.v.h.alive = true ∧ s.v.h.thin = true ∧ s.v.h.tracked = true ∧
       (step none .dropVec s).1 = .unit ∧ (step none .dropVec s).2.mem.bufs = [] := by decide
+
+/-- `exactly_once` is not vacuous: a fault-free leak-free history with clones, a conversion (two
+prefix values dropped on the way, a third created), a split and a drain; 11 ids were created and
+every one of them has exactly one drop/return event after the final drop -/
+example :
+    let hist : List (Option Nat × Op) :=
+      [(none, .push), (none, .push), (none, .extWithin 0 2), (none, .roundtrip), (none, .splitOff 3),
+       (none, .clone), (none, .drain 0 2 [.back] .drop), (none, .pop)]
+    CleanHist hist ∧ (run hist (initThin 8 true)).v.h.alive = true ∧
+      (step none .dropVec (run hist (initThin 8 true))).2.mem.next = 11 ∧
+      (List.range 11).all (fun a =>
+        (step none .dropVec (run hist (initThin 8 true))).2.mem.trace.count (.drop a) +
+          (step none .dropVec (run hist (initThin 8 true))).2.mem.trace.count (.ret a) == 1) := by
+  intro hist
+  decide
 
 end HipVerif.Props.C14
